@@ -193,6 +193,68 @@ impl Core {
         self.take_open(r)
     }
 
+    pub fn apply_proof(&mut self, proof: &hypercore::Proof) -> Value {
+        let hc = match self.hc.as_mut() {
+            Some(h) => h,
+            None => return json!({"t":"noinstance"}),
+        };
+        let r = catch_unwind(AssertUnwindSafe(|| block_on(hc.verify_and_apply_proof(proof))));
+        match r {
+            Ok(Ok(b)) => json!({"t":"ok","applied":b}),
+            Ok(Err(e)) => err_json(&e),
+            Err(p) => panic_json(p),
+        }
+    }
+
+    pub fn create_proof(
+        &mut self,
+        block: Option<hypercore::RequestBlock>,
+        hash: Option<hypercore::RequestBlock>,
+        seek: Option<hypercore::RequestSeek>,
+        upgrade: Option<hypercore::RequestUpgrade>,
+    ) -> Result<Option<hypercore::Proof>, Value> {
+        let hc = match self.hc.as_mut() {
+            Some(h) => h,
+            None => return Err(json!({"t":"noinstance"})),
+        };
+        let r = catch_unwind(AssertUnwindSafe(|| {
+            block_on(hc.create_proof(block, hash, seek, upgrade))
+        }));
+        match r {
+            Ok(Ok(p)) => Ok(p),
+            Ok(Err(e)) => Err(err_json(&e)),
+            Err(p) => Err(panic_json(p)),
+        }
+    }
+
+    pub fn missing_nodes_tree(&mut self, tree_index: u64) -> Result<u64, Value> {
+        let hc = match self.hc.as_mut() {
+            Some(h) => h,
+            None => return Err(json!({"t":"noinstance"})),
+        };
+        let r = catch_unwind(AssertUnwindSafe(|| {
+            block_on(hc.missing_nodes_from_merkle_tree_index(tree_index))
+        }));
+        match r {
+            Ok(Ok(n)) => Ok(n),
+            Ok(Err(e)) => Err(err_json(&e)),
+            Err(p) => Err(panic_json(p)),
+        }
+    }
+
+    pub fn missing_nodes(&mut self, index: u64) -> Result<u64, Value> {
+        let hc = match self.hc.as_mut() {
+            Some(h) => h,
+            None => return Err(json!({"t":"noinstance"})),
+        };
+        let r = catch_unwind(AssertUnwindSafe(|| block_on(hc.missing_nodes(index))));
+        match r {
+            Ok(Ok(n)) => Ok(n),
+            Ok(Err(e)) => Err(err_json(&e)),
+            Err(p) => Err(panic_json(p)),
+        }
+    }
+
     /// open(true) together with a key pair on the same storage; the live instance is untouched
     pub fn open_with_key_pair(&mut self) -> Value {
         let d = self.disk.clone();
